@@ -1,7 +1,7 @@
 SPECIFICATION Spec
 CONSTANTS
-  Owners = {"A", "B"}
-  Vers = {1}
+  Owners = {"A"}
+  Vers = {1, 2}
   OOs = {"o1"}
   LOs = {"l1"}
   Names = {"a"}
@@ -11,7 +11,7 @@ CONSTANTS
   MaxOps = 4
   Lease = 1
   SessIds = {1, 2}
-  Ctxs = {"A", "B"}
+  Ctxs = {"A"}
   Deferred = FALSE
   InitFH = 1
   MaxOther = 2
